@@ -11,24 +11,24 @@ type Options struct {
 	// 0 means unlimited (the classic preemption-bounded search), a negative value allows none. A positive bound makes the search
 	// tractable when many daemon threads are runnable at every blocking point.
 	FreeBound int
-	MaxSteps     int
-	MaxExecs     int // 0 = unlimited
-	Shard        int // this worker
-	Shards       int // number of workers (0/1 = no sharding)
-	Expired      func() bool
-	Setup        func(s *S)
+	MaxSteps  int
+	MaxExecs  int // 0 = unlimited
+	Shard     int // this worker
+	Shards    int // number of workers (0/1 = no sharding)
+	Expired   func() bool
+	Setup     func(s *S)
 }
 
 type Stats struct {
-	Executions  int // executions owned (checked) by this worker
-	Redundant   int // executions run only to discover the tree (sharding overhead)
-	Points      int
-	MaxPoints   int
-	Deadlocks   int
-	Horizons    int
-	ByCost      map[string]int
-	Exhaustive  bool
-	Nondeterm   string
+	Executions int // executions owned (checked) by this worker
+	Redundant  int // executions run only to discover the tree (sharding overhead)
+	Points     int
+	MaxPoints  int
+	Deadlocks  int
+	Horizons   int
+	ByCost     map[string]int
+	Exhaustive bool
+	Nondeterm  string
 }
 
 func costs(points []PointInfo, upto int) (pre, flt int) {
